@@ -129,8 +129,20 @@ def multi(spec, seed, n, procs):
     impl.CTX = None          # the library's own random weights: no harness runner is active
     # one extra argument positionally, two by keyword (both have other defaults in `_sim`): the
     # in-process branch and the worker branch must forward them alike
-    systems = System.simulate_multiple_times(_sim, n, procs, spec, seed=seed, stretch=2)
-    return [canon_data(s) for s in systems]
+    from simprocesd.model.factory_floor.asset import Asset
+    saved = Asset._id_counter
+    Asset._id_counter += 1000          # ids beyond the small-integer cache: equal ids are distinct objects
+    try:
+        systems = System.simulate_multiple_times(_sim, n, procs, spec, seed=seed, stretch=2)
+    finally:
+        Asset._id_counter = saved
+    out = []
+    for s in systems:
+        # every registered asset is found by (a freshly computed copy of) its id, whatever the id offset and
+        # whether the system was pickled back from a worker process or not
+        lookups = tuple(len(s.find_assets(id_=int(str(a.id)))) for a in s._assets)
+        out.append((canon_data(s), lookups))
+    return out
 
 
 def child_main():
@@ -230,13 +242,21 @@ def metamorphic(seed, tier):
             ref = multi(spec, seed, nsim, 0)
             if len(ref) != nsim:
                 wit.append({'kind': 'multi-count', 'expected': nsim, 'got': len(ref)})
-            if len(set(ref)) > 1:
+            if len(set(r[0] for r in ref)) > 1:
                 stats['merge_decided_by_tiebreak'] += 1
+            for (data, lookups) in ref:
+                if any(k != 1 for k in lookups):
+                    wit.append({'kind': 'lookup-by-id', 'max_processes': 0,
+                                'found_per_registered_asset': list(lookups), 'expected': 'exactly 1 each'})
+                    break
             for procs in ([1, 2] if tier == 'quick' else [1, 2, 4, None]):
                 got = multi(spec, seed, nsim, procs)
                 stats['multiprocess_settings'] += 1
                 evals += 1
-                if got != ref:
+                if any(k != 1 for (_, lookups) in got for k in lookups):
+                    wit.append({'kind': 'lookup-by-id', 'max_processes': procs,
+                                'found_per_registered_asset': [list(l) for _, l in got], 'expected': 'exactly 1 each'})
+                elif got != ref:
                     wit.append({'kind': 'multi', 'max_processes': procs, 'spec': repr(spec),
                                 'in_process': ref, 'workers': got})
         except Exception as e:
